@@ -2,7 +2,7 @@
    same root exhibit an explicit SHA-256 collision.  So "the pieces root matches" (recheck, rebuild,
    C02 / C04 / C13) can only be wrong about the leaves if the hash function itself is broken --
    the dependency on collision resistance, stated as a theorem instead of an assumption. *)
-From TF Require Import Lib.Base Lib.Chunks Lib.Merkle Spec.Bep52.
+From TF Require Import Lib.Base Lib.Chunks Lib.Merkle Spec.Bep52 Model.HasherV2 Proofs.MerkleProofs.
 
 Lemma Forall_firstn' {A} (P : A -> Prop) n l : Forall P l -> Forall P (firstn n l).
 Proof.
@@ -76,6 +76,17 @@ Proof.
     + right. exists (a ++ b), (a' ++ b'). split; assumption.
 Qed.
 
+(* the same for the loop the code runs (hasher.merkle_root, Model/HasherV2.v), through merkle_root = tree_root *)
+Theorem merkle_root_binds k : forall l l',
+  length l = 2 ^ k -> length l' = 2 ^ k ->
+  Forall (fun x => length x = 32) l -> Forall (fun x => length x = 32) l' ->
+  merkle_root H256 l = merkle_root H256 l' -> l = l' \/ collision.
+Proof.
+  intros l l' Hl Hl' Hf Hf' He.
+  rewrite (merkle_root_tree_root H256 k l Hl), (merkle_root_tree_root H256 k l' Hl') in He.
+  exact (tree_root_binds k l l' Hl Hl' Hf Hf' He).
+Qed.
+
 End MerkleCollision.
 
 (* non-vacuity of `collision` as a notion: a constant "hash" has one, and then the theorem's
@@ -84,3 +95,4 @@ Example constant_hash_collides : collision (fun _ => repeat Ascii.zero 32).
 Proof. exists [], [Ascii.zero]. split; [discriminate|reflexivity]. Qed.
 
 Print Assumptions tree_root_binds.
+Print Assumptions merkle_root_binds.
